@@ -7,5 +7,6 @@ St3 == {"kept", "gc", "comdat"}
 St4 == {"kept", "gc", "comdat", "empty"}
 (* address orders unrelated to FDE order: ascending, descending-ish, interleaved *)
 Perms5 == {<<10, 20, 30, 40, 50>>, <<50, 10, 40, 20, 30>>}
+Perms5q == {<<50, 10, 40, 20, 30>>}
 Perms8 == {<<10, 20, 30, 40, 50, 60, 70, 80>>, <<80, 30, 10, 60, 20, 70, 40, 50>>}
 =============================================================================
